@@ -4,7 +4,11 @@
 (* (Skip: state restored; Accept: the last probed state, strictly better;       *)
 (* Rollback: state restored), no other point may move, followers stay linked,   *)
 (* clamped points stay on their manifold and inside their bounds, and the       *)
-(* mesh/sketch equals the optimizer's points after the run.                     *)
+(* mesh/sketch equals the optimizer's points after the run.  The iteration      *)
+(* driver (Optimizer.tla Converged): r.iters lists <<quality at begin, at end>>  *)
+(* of every iteration in units of 1e-9 of the quality before the first one       *)
+(* (so tolerance t is r.tol = t * 1e9); the run has at most r.max_iter           *)
+(* iterations, went on exactly while Converged was false and stopped when true.  *)
 EXTENDS Naturals, Sequences, FiniteSets, TLC, Json, IOUtils
 \* ---- acceptor for recorded executions --------------------------------------------------
 \* one record = one optimize() run: steps (one per optimize_clamp call) + the final observations
@@ -15,8 +19,15 @@ StepOK(s) ==
        ELSE IF s.improved THEN s.q_after_eq_last /\ ~s.q_after_worse                \* Accept
             ELSE s.restored /\ s.q_after_eq_before                                  \* Rollback
     /\ s.others_still /\ s.followers_linked /\ s.on_manifold /\ s.in_bounds
+ConvergedAt(r, n) ==      \* after n iterations
+    \/ n >= r.max_iter
+    \/ n >= 2 /\ r.iters[n][1] - r.iters[n][2] < r.tol
+DriverOK(r) == /\ Len(r.iters) >= 1 /\ Len(r.iters) <= r.max_iter
+               /\ ConvergedAt(r, Len(r.iters))
+               /\ \A n \in 1..(Len(r.iters) - 1) : ~ConvergedAt(r, n)
+               /\ \A n \in 1..(Len(r.iters) - 1) : r.iters[n + 1][1] = r.iters[n][2]     \* iterations follow one another
 RunVerdict(r) ==
-    { c \in {"step-rule", "never-worse", "unclamped-moved", "backport", "followers", "constraints"} :
+    { c \in {"step-rule", "never-worse", "unclamped-moved", "backport", "followers", "constraints", "driver"} :
         CASE c = "step-rule" -> \E i \in 1..Len(r.steps) :
                                    LET s == r.steps[i] IN
                                    ~ (IF s.degenerate THEN s.restored /\ s.q_after_eq_before
@@ -25,6 +36,7 @@ RunVerdict(r) ==
           [] c = "unclamped-moved" -> ~r.unclamped_still \/ \E i \in 1..Len(r.steps) : ~r.steps[i].others_still
           [] c = "backport" -> ~r.backport_equal
           [] c = "followers" -> ~r.followers_linked \/ \E i \in 1..Len(r.steps) : ~r.steps[i].followers_linked
+          [] c = "driver" -> ~DriverOK(r)
           [] c = "constraints" -> ~r.on_manifold \/ ~r.in_bounds \/ \E i \in 1..Len(r.steps) : ~(r.steps[i].on_manifold /\ r.steps[i].in_bounds) }
 JInit == LET rs == Recs IN \E i \in 1..Len(rs) : rec = rs[i]
 JSpec == JInit /\ [][UNCHANGED rec]_rec
